@@ -14,7 +14,7 @@ writer and every restart.  `RunOK` constrains only the blobs that are *accepted*
 clash-free source unless Keccak collides; its failure is finding F-C19a, proved below); rejected blobs —
 corrupted, unsolicited, late — are arbitrary.
 -/
-import YouVerif.C19.ProofsContent
+import YouVerif.C19.ProofsSource
 
 namespace YouVerif.C19
 
@@ -182,6 +182,61 @@ theorem schedule_independent {db1 db2 : List Entry} {root : Hash} {cb : Bool} {o
   obtain ⟨c2, k2⟩ := mk db2 ops2 hd2 hk2 hok2 hkey2
   exact reads_identical_content c1 k1 c2 k2 hr1 hr2
 
+/-! ## The same, from hypotheses on the source only
+
+`SrcOK` = the source is role-consistent (clash-free); `SrcOp` = a downloader-level operation: *any* blob may be
+delivered, `Missing`, `Commit` (also failing), restart, and (re)starting the sync for a root the source holds.
+That every accepted blob is then role-consistent (`RunOK`) is proved, not assumed: every requested hash is a hash
+the source holds, so an accepted blob is the source's blob unless Keccak collides. -/
+
+/-- **interrupted_sync_never_partial.**  For a clash-free source and any downloader-level schedule whatsoever, at
+every interruption point: a root present in the database has everything a reader reaches from it — or a Keccak
+collision exists. -/
+theorem interrupted_sync_never_partial {db0 src : List Entry} {ops : List Op}
+    (hd0 : DbClosed e role db0) (hsrc : DbClosed e role src) (hksrc : HashKeyed e src) (hsok : SrcOK e role src)
+    (hops : ∀ op ∈ ops, SrcOp e role src op) :
+    Collision e ∨ ∀ root x, (run e (St.init db0) ops).dbHas root = true →
+      Reach e role (run e (St.init db0) ops).db root x → (run e (St.init db0) ops).dbHas x = true := by
+  by_cases hcol : Collision e
+  · exact Or.inl hcol
+  right
+  have hinj := inj_of_not_collision hcol
+  have hok := source_run hinj hsrc hksrc hsok ops (St.init db0) (init_inv hd0) (fun r hr => by cases hr) hops
+  intro root x hr hx
+  exact (never_partial_as_complete hd0 hok root x hr hx).1
+
+/-- **sync_correct.**  For a clash-free source, a closed hash-keyed initial database and any downloader-level
+schedule without restart after the sync was started: once the sync reports completion, the committed database
+holds the root, is closed, and shows a reader from the root exactly the entries the source shows — or a Keccak
+collision exists. -/
+theorem sync_correct {db0 src : List Entry} {root : Hash} {cb : Bool} {ops : List Op}
+    (hd0 : DbClosed e role db0) (hk0 : HashKeyed e db0)
+    (hsrc : DbClosed e role src) (hksrc : HashKeyed e src) (hsok : SrcOK e role src)
+    (hroot : hasKey src root = true) (hrole : role root = .node cb) (hnz : root ≠ e.zeroHash) (hne : root ≠ e.emptyRoot)
+    (hops : ∀ op ∈ ops, SrcOp e role src op) (hno : ∀ op ∈ ops, op ≠ .restart)
+    (hdone : (run e (newSync e db0 root cb) ops).pending = 0) :
+    Collision e ∨
+    (hasKey (step e (run e (newSync e db0 root cb) ops) (.commit none)).1.db root = true ∧
+     DbClosed e role (step e (run e (newSync e db0 root cb) ops) (.commit none)).1.db ∧
+     ∀ x,
+      (Reach e role (step e (run e (newSync e db0 root cb) ops) (.commit none)).1.db root x ↔ Reach e role src root x) ∧
+      (Reach e role (step e (run e (newSync e db0 root cb) ops) (.commit none)).1.db root x →
+        ∀ v, (x, v) ∈ (step e (run e (newSync e db0 root cb) ops) (.commit none)).1.db ↔ (x, v) ∈ src)) := by
+  by_cases hcol : Collision e
+  · exact Or.inl hcol
+  right
+  have hinj := inj_of_not_collision hcol
+  have hstart : SrcOp e role src (.addSub root 0 e.zeroHash cb) := ⟨rfl, Or.inr ⟨hrole, hnz, hroot⟩⟩
+  obtain ⟨hok0, hq0⟩ := source_step hinj hsrc hksrc hsok (init_inv hd0) (fun r hr => by cases hr) hstart
+  have hi0 : Inv e role [] none (newSync e db0 root cb) := step_inv_at (init_inv hd0) hok0
+  have hok := source_run hinj hsrc hksrc hsok ops (newSync e db0 root cb) hi0 hq0 hops
+  have hkey : ∀ op ∈ ops, OpKeyed e op := by
+    intro op hop
+    have := hops op hop
+    cases op <;> first | trivial | exact absurd this id
+  obtain ⟨h1, h2, h3⟩ := sync_reproduces_source hd0 hk0 hsrc hksrc hroot (Or.inr ⟨hrole, hnz⟩) hne hok hkey hno hdone
+  exact ⟨h1, h2, h3.resolve_left hcol⟩
+
 /-! ## The property is false without role consistency: known finding F-C19a
 
 A state in which a raw entry (contract code) is byte-identical to a trie node with children has no consistent
@@ -275,5 +330,61 @@ example : ∀ op ∈ okOps, OpKeyed okEnv op := by
 /-- test on literals: the schedule above ends complete with everything reachable stored -/
 example : (run okEnv (St.init []) okOps).pending = 0 ∧ (run okEnv (St.init []) okOps).dbHas 10 = true ∧
     (run okEnv (St.init []) okOps).dbHas 21 = true ∧ (run okEnv (St.init []) okOps).dbHas 30 = true := by decide
+
+/-! ### the source-level hypotheses of `sync_correct` / `interrupted_sync_never_partial` are satisfiable -/
+
+
+def okSrc : List Entry := [(10, some 1), (11, some 2), (12, some 3), (20, some 4), (21, some 5), (30, some 6)]
+
+example : HashKeyed okEnv okSrc := by
+  intro h b hm
+  simp only [okSrc, List.mem_cons, Prod.mk.injEq, List.not_mem_nil, or_false] at hm
+  rcases hm with ⟨rfl, h⟩ | ⟨rfl, h⟩ | ⟨rfl, h⟩ | ⟨rfl, h⟩ | ⟨rfl, h⟩ | ⟨rfl, h⟩ <;> cases h <;> rfl
+
+example : DbClosed okEnv okRole okSrc := by
+  intro h v hm
+  simp only [okSrc, List.mem_cons, Prod.mk.injEq, List.not_mem_nil, or_false] at hm
+  rcases hm with ⟨rfl, rfl⟩ | ⟨rfl, rfl⟩ | ⟨rfl, rfl⟩ | ⟨rfl, rfl⟩ | ⟨rfl, rfl⟩ | ⟨rfl, rfl⟩ <;>
+    (constructor
+     · simp [GoodEntry, okRole, okEnv, cxEnv]
+     · intro x hx
+       simp [refs, okRole, okEnv, cxEnv, leafRefs, addRef] at hx
+       try (rcases hx with rfl | rfl <;> decide)
+       try (subst hx; decide))
+
+example : SrcOK okEnv okRole okSrc := by
+  intro h b hm
+  simp only [okSrc, List.mem_cons, Prod.mk.injEq, List.not_mem_nil, or_false] at hm
+  rcases hm with ⟨rfl, h⟩ | ⟨rfl, h⟩ | ⟨rfl, h⟩ | ⟨rfl, h⟩ | ⟨rfl, h⟩ | ⟨rfl, h⟩ <;> cases h <;>
+    (intro cb hr nv hv
+     simp [okEnv, cxEnv] at hv hr
+     try subst hv
+     try simp_all [okRole, AddOK, okEnv, cxEnv])
+
+example : ∀ op ∈ okOps, SrcOp okEnv okRole okSrc op := by
+  intro op hop
+  simp only [okOps, List.mem_cons, List.not_mem_nil, or_false] at hop
+  rcases hop with rfl | rfl | rfl | rfl | rfl | rfl | rfl | rfl | rfl | rfl | rfl | rfl | rfl | rfl | rfl | rfl | rfl | rfl | rfl
+  all_goals first
+    | trivial
+    | exact ⟨rfl, Or.inr ⟨by decide, by decide, by decide⟩⟩
+
+/-- a restart-free adversarial schedule after `newSync` (unsolicited 5, corrupted 7, duplicate 4, failing writer) -/
+def okOps2 : List Op :=
+  [.missing 1 [10], .deliver 5, .deliver 1, .deliver 3, .deliver 7, .deliver 4, .deliver 4, .commit (some 0), .deliver 5,
+   .commit (some 1), .deliver 2, .deliver 6]
+
+example : (run okEnv (newSync okEnv [] 10 true) okOps2).pending = 0 := by decide
+
+example : ∀ op ∈ okOps2, op ≠ .restart := by
+  intro op hop
+  simp only [okOps2, List.mem_cons, List.not_mem_nil, or_false] at hop
+  rcases hop with rfl | rfl | rfl | rfl | rfl | rfl | rfl | rfl | rfl | rfl | rfl | rfl <;> simp
+
+example : ∀ op ∈ okOps2, SrcOp okEnv okRole okSrc op := by
+  intro op hop
+  simp only [okOps2, List.mem_cons, List.not_mem_nil, or_false] at hop
+  rcases hop with rfl | rfl | rfl | rfl | rfl | rfl | rfl | rfl | rfl | rfl | rfl | rfl
+  all_goals trivial
 
 end YouVerif.C19
